@@ -280,6 +280,7 @@ func inprocWorker(c *vf.Ctx, stream uint64) {
 			runCond(c, st, ix, cond, tb, settings, fmt.Sprintf("w%d/t%d/c%d", stream, ti, ci))
 		}
 	}
+	directedPhase(c, st, stream)
 	finishStats(c, st, fmt.Sprintf("inproc-%d", stream))
 }
 
